@@ -733,7 +733,7 @@ class Client:
         if condition:
             self.errmsg = b"Old script does not exist"
             return False
-        if newname in scripts:
+        if newname == active_script or newname in scripts:
             self.errmsg = b"New script already exists"
             return False
         oldscript = self.getscript(oldname)
